@@ -8,6 +8,7 @@ import PydapModel.Handler
 import Proofs.Handler
 import Proofs.HandlerWF
 import Proofs.CeSrc
+import Proofs.HlibSrc
 namespace Pydap.C15
 open Pydap Pydap.Handler
 
@@ -331,5 +332,54 @@ example : run intText procAB [⟨cs!"h0", cs!"/d.dods", cs!"s.i"⟩, ⟨cs!"h1",
        none,
        some (.errdoc (-1))] := by
   decide +kernel
+
+/-! ### the tie by translation: the *source text* of `check_hyperslab` is the guard of `sliceBase`
+
+`Pydap.Gen.src_check_hyperslab` (PydapModel/Generated/HlibSrc.lean) is the MiniPy syntax tree of the whole body of
+handlers/lib.py `check_hyperslab` — the length test, the loop `for s, n in zip(slice_, shape)` (a MiniPy `forZip`),
+`slice(s, s + 1, 1)` for an int index, the three defaults, `inside` with its empty-axis clause and the final test —
+regenerated from the file on every run by `harness/py2lean.py`.  The inputs are the index tuple (ints and slice
+objects with int-or-None fields) and the shape; the text of the exception message is not carried. -/
+
+open MiniPy in
+/-- for every index tuple and every shape the interpreted source returns normally exactly when the tuple is not longer
+    than the shape and `validSl` holds on every axis (an int `i` read as `slice(i, i + 1, 1)`), and raises
+    `ConstraintExpressionError` otherwise -/
+theorem C15_source_check_hyperslab (its : List Item) (shape : List Nat) :
+    runItem [("slice_", .tuple its), ("shape", shapeTuple shape)] Gen.src_check_hyperslab "shape"
+      = if its.length ≤ shape.length ∧ (List.zipWith validSl shape (its.map itemSlice)).all id = true then
+          .ok (shapeTuple shape)
+        else .error (.raised "ConstraintExpressionError") :=
+  src_check_hyperslab_eq its shape
+
+open MiniPy in
+/-- … so on the slice tuples of the model (`parse_hyperslab` only produces slices) the source raises exactly when
+    `sliceBase` answers `ConstraintExpressionError`, and returns exactly when `sliceBase` applies the selection -/
+theorem C15_source_check_hyperslab_sliceBase (b : Base) (sl : List PSlice) :
+    (runItem [("slice_", .tuple (sl.map sliceItem)), ("shape", shapeTuple b.shape)] Gen.src_check_hyperslab "shape"
+        = .error (.raised "ConstraintExpressionError") ↔ sliceBase b sl = .error .ceError) ∧
+    (runItem [("slice_", .tuple (sl.map sliceItem)), ("shape", shapeTuple b.shape)] Gen.src_check_hyperslab "shape"
+        = .ok (shapeTuple b.shape) ↔ ∃ b', sliceBase b sl = .ok b') := by
+  rw [src_check_hyperslab_eq]
+  simp only [List.length_map, List.map_map, Function.comp_def, itemSlice_sliceItem, List.map_id']
+  unfold sliceBase
+  by_cases h : sl.length ≤ b.shape.length ∧ (List.zipWith validSl b.shape sl).all id = true
+  · rw [if_pos h, if_pos h]
+    exact ⟨⟨(fun e => by cases e), (fun e => by cases e)⟩, ⟨fun _ => ⟨_, rfl⟩, fun _ => rfl⟩⟩
+  · rw [if_neg h, if_neg h]
+    exact ⟨⟨fun _ => rfl, fun _ => rfl⟩, ⟨(fun e => by cases e), (fun ⟨_, e⟩ => by cases e)⟩⟩
+
+open MiniPy in
+example : runItem [("slice_", .tuple [.slice (some 1) (some 21) (some 1)]), ("shape", shapeTuple [3])]
+    Gen.src_check_hyperslab "shape" = .ok (shapeTuple [3]) := by decide
+open MiniPy in
+example : runItem [("slice_", .tuple [.int 3]), ("shape", shapeTuple [3])]
+    Gen.src_check_hyperslab "shape" = .error (.raised "ConstraintExpressionError") := by decide
+open MiniPy in
+example : runItem [("slice_", .tuple [.slice (some 0) (some 1) none]), ("shape", shapeTuple [0])]
+    Gen.src_check_hyperslab "shape" = .ok (shapeTuple [0]) := by decide
+open MiniPy in
+example : runItem [("slice_", .tuple [.int 0, .int 0]), ("shape", shapeTuple [3])]
+    Gen.src_check_hyperslab "shape" = .error (.raised "ConstraintExpressionError") := by decide
 
 end Pydap.C15
